@@ -24,6 +24,14 @@ CHECKS = {
   "held on the observed accepted outputs: a structural invariant monitor over the real serialised catalog (duplicate keys via a streaming token decoder, cross-references, id encoding, body/format table, Title())",
   "trusts encoding/json's tokenizer as the JSON reference",
   "runtime monitoring: invariant checker over the serialised output of every accepted execution"),
+ "C03": ("exploration",
+  "held on the observed repetitions: identical deciding fields over K in-process repetitions, under concurrent load, and across fresh processes with different GOMAXPROCS, on documents built to have several entries in every hashed collection; map orders are sampled, not enumerated",
+  "trusts Go's per-range map randomisation as the source of iteration-order diversity",
+  "runtime monitoring: relation between repeated executions of the real code (byte equality of observations), in-process, concurrent and cross-process"),
+ "C17": ("exploration",
+  "held on every string up to the length bound over the stress alphabet (exhaustive under the bound) in the parameter hosts, plus random longer strings; value equality read from the real catalog, error positions compared with a reference tokenizer",
+  "trusts the 15-line reference tokenizer for quoted parameters written from the property statement",
+  "runtime monitoring: execution vs a small executable reference model, bounded-exhaustive input enumeration"),
 }
 
 def main():
